@@ -136,6 +136,48 @@ theorem orderly_stop (c : TCfg) (hcap : c.cap > 0) (hvcap : c.vcap > 0) (batches
     simp [TState.init, TState.measure, b2n] at this
     omega
 
+/-! ### the hypothesis behind `rSendFail`, made explicit: every clone of the data receiver other than
+    the consumer's is dropped.  If some other thread keeps one (e.g. `process()` holding
+    `reader_data_recv` in one of its `match` arms until it has joined the reader), a blocked send never
+    fails, and the model shows the deadlock — so the property needs that every arm drops its clone,
+    which is what the full-queue scenarios of the C17 check exercise for every option combination. -/
+
+/-- program steps when a receiver clone outlives the consumer: as `TStep`, but a blocked send is
+    never released by disconnection -/
+def LeakStep (c : TCfg) (s s' : TState) : Prop :=
+  TStep c s s' ∧ ¬ (s.rAlive = true ∧ s.pending = true ∧ s.aAlive = false)
+
+/-- a reachable state of the leaking variant in which nothing can move and not every thread is done
+    (capacity 1: one batch queued, the reader holds the next, the stop flag made the consumer leave) -/
+def stuck : TState :=
+  { input := 0, stop := true, pending := true, rAlive := true, q := 1, holding := false, aLoop := false,
+    aAlive := false, vq := 0, vClosed := true, vAlive := false, fAlive := true, cAlive := true }
+
+theorem leaked_receiver_deadlocks :
+    -- reachable from the initial state with two batches by steps that are also steps of the leaking variant …
+    (∃ n, Exec ⟨1, 1⟩ (TState.init 2) n stuck) ∧
+    -- … not finished, and no step of the leaking variant is enabled
+    stuck.allDone = false ∧ ¬ ∃ s', LeakStep ⟨1, 1⟩ stuck s' := by
+  refine ⟨⟨6, ?_⟩, by decide, ?_⟩
+  · -- read, send, read, (stop), consumer leaves, validators end, consumer exits
+    have h : ∃ s, Exec ⟨1, 1⟩ (TState.init 2) 6 s ∧ s = stuck :=
+      ⟨_, .prog _ _ _ _ (TStep.rRead _ rfl rfl rfl (by decide))
+          (.prog _ _ _ _ (TStep.rSend _ rfl rfl rfl (by decide))
+            (.prog _ _ _ _ (TStep.rRead _ rfl rfl rfl (by decide))
+              (.env _ _ _ _ (EnvStep.raiseStop _)
+                (.prog _ _ _ _ (TStep.aEnd _ rfl rfl (Or.inl rfl))
+                  (.prog _ _ _ _ (TStep.vEnd _ rfl rfl rfl)
+                    (.prog _ _ _ _ (TStep.aExit _ rfl rfl rfl) (.refl _))))))), by decide⟩
+    obtain ⟨s, hs, rfl⟩ := h
+    exact hs
+  · rintro ⟨s', hstep, hno⟩
+    cases hstep <;> simp_all [stuck]
+
+/-- with the clone dropped (the model of the code as it is) the same state is *not* stuck: the send
+    fails and the reader ends -/
+example : ∃ s', TStep ⟨1, 1⟩ stuck s' := ⟨_, TStep.rSendFail _ rfl rfl rfl⟩
+
+
 /-! ### the filtered output consists of whole packets at every stop point -/
 
 /-- the writer thread: receives batches; on a raised stop flag it leaves before pushing the batch
